@@ -146,3 +146,58 @@ def covers_all(guards, depth=0):
             return out
         return covers_all(assume(a, na), depth + 1) and covers_all(assume(na, a), depth + 1)
     return False
+
+
+_CALLGRAPH = {}
+
+
+def reachable(model, roots):
+    """package functions reachable from the named roots: an edge for every identifier / attribute name in a body that names a package function or class
+    (over-approximation: also functions merely referenced, e.g. passed to partial or stored in a table)"""
+    import ast
+    key = id(model)
+    if key not in _CALLGRAPH:
+        by_name = {}
+        for q, f in model.funcs.items():
+            by_name.setdefault(f.name, set()).add(q)
+        for cq in model.classes:
+            for q, f in model.funcs.items():
+                if f.cls == cq:
+                    by_name.setdefault(cq.rsplit('.', 1)[1], set()).add(q)
+        graph = {}
+        for q, f in model.funcs.items():
+            names = {n.id for n in ast.walk(f.node) if isinstance(n, ast.Name)} | {n.attr for n in ast.walk(f.node) if isinstance(n, ast.Attribute)}
+            graph[q] = set().union(*(by_name.get(n, set()) for n in names)) - {q}
+        _CALLGRAPH[key] = graph
+    graph = _CALLGRAPH[key]
+    seen, work = set(), [model.find(r).qual for r in roots]
+    while work:
+        q = work.pop()
+        if q in seen:
+            continue
+        seen.add(q)
+        work.extend(graph.get(q, ()))
+    return seen
+
+
+def no_history(rep, model, roots, rule='NO-HISTORY'):
+    """no function reachable from the entry points writes module-level state: the result of a call cannot depend on the calls made before it"""
+    rep.rule(rule, f'no function reachable from {" / ".join(roots)} writes module-level state (a cache, a registry, a constant edited in place, a `global` rebinding): '
+                   'what a call returns cannot depend on the calls made before it in the same process (shared with C15 NO-GLOBAL)')
+    summ, det, rounds, ro = effects(model)
+    qs = reachable(model, roots)
+    bad = []
+    for q in sorted(qs):
+        a = det.get(q)
+        if a is None:
+            continue
+        fn = model.funcs[q]
+        for (w, ln, c, via) in sorted(a.mut, key=lambda x: x[1]):
+            if w[0] == 'G':
+                bad.append((fn, ln, c))
+        for ln, g_ in a.globals_written:
+            bad.append((fn, ln, f'global {g_}'))
+    for fn, ln, c in bad:
+        rep.violation(rule, f'{fn.name}:{c}', f'{fn.path}:{ln} {fn.name}', expected='no write to module-level state on the analysis path',
+                      found=f'{c}: state that survives the call; a later call with the same arguments can return something else', key=f'{rule}@{fn.mod}:{fn.name}:{c}')
+    rep.ok(rule, 'reachable functions', '-', found=f'{len(qs)} functions reachable from {", ".join(roots)} scanned', nontrivial=True)
